@@ -54,6 +54,7 @@ Inductive frame :=
 | FDElse (n : nat)                                  (* _deploy: else branch, `while not event.is_set()` *)
 | FDWait (n : nat)                                  (* _deploy: the wait is over *)
 | FI (n : nat) (isw : bool)                         (* _inner_deploy(type, config of n): start *)
+| FI2 (n i : nat)                                   (* _inner_deploy: the inner deployment i is known *)
 | FIWait (n i : nat)                                (* _inner_deploy: inner known; (maybe) waited *)
 | FIAfter (n i : nat)                               (* _inner_deploy: recursive call returned *)
 | FU (n : nat)                                      (* undeploy: start *)
@@ -272,21 +273,28 @@ Definition micro (tid : nat) (s : st) : st :=
       | FI n isw =>
           if isw then
             match wraps (cfg n) with
-            | None => set_bad s      (* wraps = None deploys __LOCAL__: outside the model's domain *)
-            | Some i =>
-              if mem i (cm s) then
-                match alookup i (dm s) with
-                | None =>
-                  match alookup i (em s) with
-                  | None => raise s tid EKey
-                  | Some e => wait_event s tid e (FIWait n i)
-                  end
-                | Some _ => top_set s tid (FIWait n i)
-                end
-              else if i <? length deps then push (top_set s tid (FIAfter n i)) tid (FD i)
-              else raise s tid EDef
+            | None =>
+                (* no `wraps`: the wrapper sits on the implicit local deployment "__LOCAL__" (index length deps,
+                   whose configuration is the default: plain, eager, never failing, no suspension), deployed on
+                   demand by `await self._deploy(LocalTarget().deployment)` *)
+                let i := length deps in
+                if mem i (cm s) then top_set s tid (FI2 n i)
+                else push (top_set s tid (FI2 n i)) tid (FD i)
+            | Some i => top_set s tid (FI2 n i)
             end
           else pop s tid
+      | FI2 n i =>
+          if mem i (cm s) then
+            match alookup i (dm s) with
+            | None =>
+              match alookup i (em s) with
+              | None => raise s tid EKey
+              | Some e => wait_event s tid e (FIWait n i)
+              end
+            | Some _ => top_set s tid (FIWait n i)
+            end
+          else if i <? length deps then push (top_set s tid (FIAfter n i)) tid (FD i)
+          else raise s tid EDef
       | FIWait n i =>
           match alookup i (dm s) with
           | None => raise s tid EKey
